@@ -73,6 +73,27 @@ def meta_histories():
         ('va', 'e2', [['ChangeField', 'Item', 'a', {'max_length': 30},
                        None, None]]),
     ]))
+    # a condition with a SET of strings (its rendering must not depend on
+    # hashing)
+    out.append(('meta-set-of-strings', v0, [
+        ('va', 'e1', [['ChangeMeta', 'Item', 'constraints', [
+            {'type': 'check', 'name': 'ck_set', 'check': [
+                ['a__in', {'set': ['alpha', 'beta', 'gamma', 'delta',
+                                   'epsilon', 'zeta']}]]}]]]),
+        ('va', 'e2', [['ChangeMeta', 'Item', 'indexes', [
+            {'fields': ['b'], 'name': 'ix_set', 'condition': [
+                ['a__in', {'set': ['p1', 'p2', 'p3', 'p4', 'p5']}]]}]]]),
+    ]))
+    # an evolution shipped as SQL files: the generic and the
+    # database-specific file both exist (the database-specific one wins),
+    # next to Python evolutions
+    out.append(('sql-files', v0, [
+        ('va', 'e1', [['SQLFile', {
+            'e1.sql': "UPDATE va_item SET c = 1;\n",
+            'default_e1.sql': "UPDATE va_item SET c = 2;\n"}]]),
+        ('va', 'e2', [['AddField', 'Item', 'n1', 'Int', {'null': True},
+                       None]]),
+    ]))
     # raw SQL with percent signs and a %s look-alike (no parameters: the
     # text must reach the database untouched)
     out.append(('raw-sql-percent', v0, [
@@ -400,7 +421,11 @@ def digest_case(case):
     if image is None:
         return name, i, k, 'no-baseline'
     h = hashlib.sha1()
-    for hint in (False, True):
+    # a Python set inside a condition reaches the SQL through Django's own
+    # compiler, which iterates it in hash order: for that case only the hint
+    # text (django-evolution's rendering of the set) is digested
+    modes = (True,) if name == 'meta-set-of-strings' else (False, True)
+    for hint in modes:
         res = preview(hist, image, k, hint=hint)
         h.update((res.stdout if res.ok else 'ERR:' + str(res.exc))
                  .encode('utf-8'))
